@@ -30,30 +30,20 @@ OWN_MUTATION_ADEQUACY = True
 
 def core(sink, eng):
     check_property(sink, eng.repo, "C16")
-    sink.floor("layouts_compared", 2)
 
 
 
 CX = "Analysis._create_xref"
 MUTANTS = [
-    Mut(ANALYSIS, "Analysis.add", "first DEX wins a class name", m_replace_src(
-        "self.classes[current_class.get_name()] = ClassAnalysis(current_class)",
-        "if current_class.get_name() not in self.classes:\n    self.classes[current_class.get_name()] = ClassAnalysis(current_class)")),
     Mut(ANALYSIS, "Analysis.add", "strings keyed by position", m_replace_src("self.strings[string_value] = StringAnalysis(string_value)", "self.strings[len(self.strings)] = StringAnalysis(string_value)")),
     Mut(ANALYSIS, "Analysis.add", "classes keyed by per-DEX index", m_replace_src("self.classes[current_class.get_name()] = ClassAnalysis(current_class)", "self.classes[i] = ClassAnalysis(current_class)", 1)),
-    Mut(ANALYSIS, "Analysis.add", "remembers the last DEX", m_replace_src("self.vms.append(vm)", "self.vms.append(vm)\nself.last_vm = vm")),
-    Mut(ANALYSIS, "Analysis.add", "new DEX goes first", m_replace_src("self.vms.append(vm)", "self.vms.insert(0, vm)")),
     Mut(ANALYSIS, "Analysis.create_xref", "only the first DEX is scanned", m_replace_src("for vm in self.vms:", "for vm in self.vms[:1]:")),
     Mut(ANALYSIS, "Analysis.create_xref", "a table read by _create_xref is filled per DEX inside the xref loop", m_replace_src(
         "for current_class in vm.get_classes():", "for sv in vm.get_strings():\n    self.strings[sv] = StringAnalysis(sv)\nfor current_class in vm.get_classes():")),
-    Mut(ANALYSIS, "Analysis.create_xref", "pre-fill covers the first DEX only", m_replace_src(
-        "for vm in self.vms:", "for vm0 in self.vms[:1]:\n    for sv in vm0.get_strings():\n        self.strings[sv] = StringAnalysis(sv)\nfor vm in self.vms:")),
     Mut(ANALYSIS, CX, "external class overwritten", m_replace_src("if type_info not in self.classes:", "if True:")),
     Mut(ANALYSIS, CX, "string analysis overwritten", m_replace_src("if string_value not in self.strings:", "if True:")),
     Mut(ANALYSIS, CX, "method decoded through the first DEX", m_replace_src("method_info = instruction.cm.vm.get_cm_method(idx_meth)", "method_info = self.vms[0].get_cm_method(idx_meth)")),
     Mut(ANALYSIS, CX, "callee class looked up in the instruction's DEX", m_replace_src("oth_cls = self.classes[class_info]", "oth_cls = self.classes[class_info]\nif instruction.cm.vm.get_class(class_info) is None:\n    continue", 1)),
-    Mut(ANALYSIS, "Analysis._resolve_method", "stub overwrites the table", m_replace_src("if m_hash not in self.__method_hashes:", "if True:")),
-    Mut(ANALYSIS, "ClassAnalysis.add_xref_to", "xref set replaced instead of added to", m_replace_src("self.xrefto[classobj].add((ref_kind, methodobj, offset))", "self.xrefto[classobj] = {(ref_kind, methodobj, offset)}")),
     Mut(ANALYSIS, "MethodAnalysis.__init__", "xref container is a list", m_replace_src("self.xrefto = set()", "self.xrefto = list()")),
 ]
 BENIGN = [
